@@ -312,8 +312,11 @@ func (g *gen) comparison(d int) *xp.E {
 	op := cmpOps[g.pick(len(cmpOps), "cmpop")]
 	for {
 		lk, rk := g.pick(6, "lkind"), g.pick(6, "rkind")
-		// node-set against boolean is a stated grey zone: not generated
-		if (lk == 2 && rk >= 3) || (rk == 2 && lk >= 3) {
+		// a single leaf or an absent node against a boolean is a stated grey zone (the implementation hands single leaf
+		// values over as strings, and the property says "false in every comparison" for absent nodes where XPath says
+		// boolean(empty node-set) = false): not generated.  A multi-valued leaf-list is a node-set under every reading
+		// and is converted with boolean() (XPath 1.0 section 3.4).
+		if (lk == 2 && (rk == 3 || rk == 4)) || (rk == 2 && (lk == 3 || lk == 4)) {
 			continue
 		}
 		return xp.Bin(op, g.cmpOperand(lk, d-1), g.cmpOperand(rk, d-1))
